@@ -20,7 +20,10 @@ The third-party / large pieces are PARAMETERS (structure `Env`) ranging over out
 the markup parser (`get_parser_by_name(docformat, obj)(doc, errs)`), `to_stan`, `to_node`,
 the `SummaryExtractor` walk, `build_table_of_content`, the `ParsedTypeDocstring` constructor.
 An outcome is "returns a value" or "raises `e`" — exceptions are explicit (`Exc`), and every
-place where the Python has no handler propagates (`Res.raises`).  Errors a parser appended to the
+place where the Python has no handler propagates (`Res.raises`).  The model follows /repo after
+the fixes c422501 (format_toc guards get_toc) and a0ab2a9 (epytext to_node keeps no half-built
+document, so `to_node` is a function of the parsed docstring, as the model assumes); the pre-fix
+`format_toc` survives as `formatTocOld`.  Errors a parser appended to the
 `errs` list before returning / raising are part of its outcome.
 
 Objects are `Nat`s (distinct `fullName()`s assumed: `System.parse_errors` is keyed by full name).
@@ -320,7 +323,8 @@ def getSummary (env : Env) (pd : PD) : Res PD :=
     | .summary k => .ok (.user k [])
     | .nothing => .ok (.stanOnly .noSummary)
 
-/-- `ParsedDocstring.get_toc(depth)`: only `NotImplementedError` from `to_node` is handled -/
+/-- `ParsedDocstring.get_toc(depth)`: only `NotImplementedError` from `to_node` is handled here
+(the caller, `format_toc`, handles the rest) -/
 def getToc (env : Env) (pd : PD) (depth : Nat) : Res (Option PD) :=
   match pdToNode env pd with
   | .raises e => if e = .notImplemented then .ok none else .raises e
@@ -418,7 +422,24 @@ def formatSummary (env : Env) (st : St) (obj : Obj) : Res Stan × St :=
 
 /-! ### format_toc -/
 
+/-- `format_toc` (since c422501): `get_toc` is called inside `try … except Exception: toc = None` -/
 def formatToc (env : Env) (st : St) (obj : Obj) : Res (Option Stan) × St :=
+  let r := ensureParsed env st obj
+  match (r.2.objs obj).parsed with
+  | none => (.ok none, r.2)
+  | some pd =>
+    if env.tocDepth > 0 then
+      match getToc env pd env.tocDepth with
+      | .raises _ => (.ok none, r.2)          -- except Exception: toc = None
+      | .ok none => (.ok none, r.2)
+      | .ok (some toc) =>
+        let s := safeToStan env r.2 toc obj .broken false
+        (.ok (some s.1), s.2)
+    else (.ok none, r.2)
+
+/-- HISTORICAL: `format_toc` before c422501 — `get_toc` called outside any handler.
+Used only by `total_old_counterexample`. -/
+def formatTocOld (env : Env) (st : St) (obj : Obj) : Res (Option Stan) × St :=
   let r := ensureParsed env st obj
   match (r.2.objs obj).parsed with
   | none => (.ok none, r.2)
